@@ -228,6 +228,52 @@ func (c *Ctx) ruleRebuilt(rule string) {
 		}
 		return true
 	}
+	// guardCallBefore: a call, in front of the read, of a method on the same receiver every normal return of which lies
+	// behind "a constructor-filled field of the receiver is not nil" (a guard that panics otherwise)
+	guardHelper := func(g *ssa.Function) bool {
+		if g.Signature.Recv() == nil || len(g.Params) == 0 {
+			return false
+		}
+		rets := core.ReturnsOf(g)
+		for _, r := range rets {
+			found := false
+			for _, cond := range r.Conds() {
+				x, neq, ok := core.NilCmp(cond.V)
+				if !ok || neq != cond.True {
+					continue
+				}
+				if gl, ok := x.(*ssa.UnOp); ok && gl.Op == token.MUL {
+					if gfa, ok := gl.X.(*ssa.FieldAddr); ok {
+						if o, _ := ownerOf(gfa); o != nil && c.M.CondPath(g, cond, gfa.X) == c.M.ValPath(g.Params[0]) {
+							found = true
+						}
+					}
+				}
+			}
+			if !found {
+				return false
+			}
+		}
+		return len(rets) > 0
+	}
+	guardCallBefore := func(fn *ssa.Function, ld *ssa.UnOp, base ssa.Value) string {
+		for _, b := range fn.Blocks {
+			for _, in := range b.Instrs {
+				gc, ok := in.(*ssa.Call)
+				if !ok || len(gc.Call.Args) == 0 {
+					continue
+				}
+				g := core.StaticBody(&gc.Call)
+				if g == nil || g == fn || c.M.ValPath(gc.Call.Args[0]) != c.M.ValPath(base) || !instrDominates(gc, ld) {
+					continue
+				}
+				if guardHelper(g) {
+					return c.M.Key(g)
+				}
+			}
+		}
+		return ""
+	}
 	n := 0
 	for _, fn := range c.M.SortedFuncs(c.scopePkg("schema")) {
 		cnt := map[string]int{}
@@ -282,6 +328,8 @@ func (c *Ctx) ruleRebuilt(rule string) {
 					c.R.Ok(rule, k, pos, "read of an unexported field of a described type", "the value read is compared with nil at once and the block branches on the outcome (`v := o.field; if v == nil { v = fill() }`): the function distinguishes the unfilled case itself")
 				case handsOutWithVerdict(fn, ld):
 					c.R.Ok(rule, k, pos, "read of an unexported field of a described type", "the function hands the value out together with the outcome of its comparison with nil (a result of every return that carries the value): it distinguishes the unfilled case itself")
+				case guardCallBefore(fn, ld, fa.X) != "":
+					c.R.Ok(rule, k, pos, "read of an unexported field of a described type", "behind a call of "+guardCallBefore(fn, ld, fa.X)+" on the same receiver, which comes back only where a constructor-filled field was found non-nil (it panics otherwise)")
 				case guardedByCallers(fn, 0):
 					c.R.Ok(rule, k, pos, "read of an unexported field of a described type", "every call site of this function is under a branch that established that a constructor-filled field of the receiver is non-nil")
 				default:
